@@ -20,6 +20,7 @@ import numpy as np
 
 from mc.core import Outcome
 from mc.oracles import grpI_exact as X
+from mc.oracles import grpI_variants as VR
 
 PROPERTY = "C30"
 LEVEL = "exploration"
@@ -43,6 +44,12 @@ ASSUMPTIONS = [
     "degenerate (zero-length) segments and non-planar / self-intersecting polygons are outside the "
     "API and are not generated; the third return value of points_polygon is not judged",
     "points_polygon / segments_polygon are 3-d only (they rotate the polygon into the xy-plane)",
+    "every call is repeated on one variant of its arguments, rotating over {translated by 1000, scaled by "
+    "2^-10 (2^-6 for the polygon functions, whose tol=1e-5 is absolute), scaled by 2^10, int64 where "
+    "integral} x {C, F order} x {writeable, read-only}; these maps are exact, so distances must scale and "
+    "closest points map back; entries where the mapped-back variant answer differs by more than 1e-9 from "
+    "the plain answer are judged by the exact oracle in place of the plain answer",
+    "purity: every array argument must be bitwise unchanged after every call",
 ]
 BOUNDS = {
     "quick": "point_pointset/pointset: all pairs of {0..3}^2 and {0,1,2}^3; points_segments and "
@@ -187,6 +194,8 @@ class _V:
     def add(self, what, **detail):
         self.per[what] = self.per.get(what, 0) + 1
         if self.per[what] <= 2:
+            if _CUR.get("note"):
+                detail.setdefault("variant_note", _CUR["note"])
             self.out.violate(what, **detail)
 
     def close(self):
@@ -233,11 +242,100 @@ def _ps_nontrivial(p, a, b):
     return 0 < t < 1
 
 
+# ------------------------------------------------------- purity + variant wrapper
+
+# output layout of every function: "d" = distances (scale), "pl" / "pf" = points with the
+# coordinates on the last / first axis (similarity), "-" = not transformed / not compared
+_SPEC = {
+    "point_pointset": ("d",), "pointset": ("d",), "points_segments": ("d", "pl"),
+    "segment_segment_set": ("d", "pf", "pf"), "points_polygon": ("d", "pf", "-"),
+    "segments_polygon": ("d", "pf"), "segment_set": ("d", "pl"),
+}
+_CUR: dict = {"V": None, "k": 0, "note": None, "sub": set(), "vname": None}
+
+
+def _untransform(o, kind, tr):
+    o = np.asarray(o, dtype=float)
+    if kind == "d":
+        return o / VR.scale_of(tr)
+    return VR.inv(o, tr)
+
+
+class _Wrapped:
+    """porepy.geometry.distances with two additions per call: (1) the arguments must be
+    bitwise unchanged afterwards; (2) the call is repeated on a rotating exact similarity /
+    memory-layout / dtype / read-only variant of the arguments; wherever the mapped-back
+    variant answer differs (1e-9) from the plain answer it REPLACES the plain answer in the
+    returned arrays, so that the caller's full oracle judges it."""
+
+    def __getattr__(self, fname):
+        from porepy.geometry import distances
+
+        fn = getattr(distances, fname)
+        spec = _SPEC[fname]
+
+        def call(*args, **kw):
+            V = _CUR["V"]
+            _CUR.update(note=None, sub=set(), vname=None)
+            pur = VR.Purity(**{f"arg{i}": a for i, a in enumerate(args)})
+            base = fn(*args, **kw)
+            if pur.changed():
+                V.add(f"{fname}: input array modified", args=[np.asarray(a) for a in args], which=pur.changed())
+            _CUR["k"] += 1
+            small = "s2^-6" if "polygon" in fname else "s2^-10"
+            v = VR.variant(_CUR["k"], small)
+            vargs = [VR.make(a, v) if isinstance(a, np.ndarray) else a for a in args]
+            pur = VR.Purity(**{f"arg{i}": a for i, a in enumerate(vargs)})
+            try:
+                var = fn(*vargs, **kw)
+            except Exception as e:
+                V.add(f"{fname}: raised on a transformed / re-represented input", variant=VR.name(v), error=repr(e),
+                      args=[np.asarray(a) for a in args])
+                return base
+            if pur.changed():
+                V.add(f"{fname}: input array modified", variant=VR.name(v), args=[np.asarray(a) for a in args],
+                      which=pur.changed())
+            single = not isinstance(base, tuple)
+            b_list = [base] if single else list(base)
+            v_list = [var] if single or not isinstance(var, tuple) else list(var)
+            res = []
+            nsub = 0
+            for i, (kind, b) in enumerate(zip(spec, b_list)):
+                if kind == "-" or i >= len(v_list):
+                    res.append(b)
+                    continue
+                u = _untransform(v_list[i], kind, v[0])
+                b_arr = np.asarray(b, dtype=float)
+                if u.shape != b_arr.shape:
+                    res.append(u)
+                    nsub += 1
+                    continue
+                diff = ~(np.abs(u - b_arr) <= TOL)  # NaN counts as different
+                if diff.any():
+                    # entry index = position along the axis that enumerates the second objects
+                    idx = np.nonzero(diff.any(axis=0))[0] if kind == "pf" else np.nonzero(diff.reshape(diff.shape[0], -1).any(axis=1) if kind == "pl" else diff.ravel())[0]
+                    _CUR["sub"].update(int(i) for i in idx)
+                    b_arr = b_arr.copy()
+                    b_arr[diff] = u[diff]
+                    nsub += int(diff.sum())
+                    res.append(b_arr)
+                else:
+                    res.append(b)
+            _CUR["vname"] = VR.name(v)
+            if nsub:
+                _CUR["note"] = f"{fname}: {nsub} entries taken from variant {VR.name(v)}"
+                V.out.extra["entries_judged_from_variant"] = V.out.extra.get("entries_judged_from_variant", 0) + nsub
+            V.out.extra["variant_calls"] = V.out.extra.get("variant_calls", 0) + 1
+            return res[0] if single else tuple(res)
+
+        return call
+
+
 # ------------------------------------------------------------------------------- parts
 
 
 def _part_pp(case, out, V):
-    from porepy.geometry import distances
+    distances = _Wrapped()
 
     dim, n = case["dim"], case["n"]
     pts = _points(dim, 0, n)
@@ -309,7 +407,7 @@ def _judge_ps(out, V, dim, p, a, b, d, cp, how):
 
 
 def _part_ps(case, out, V):
-    from porepy.geometry import distances
+    distances = _Wrapped()
 
     dim, n = case["dim"], case["n"]
     pts = _points(dim, 0, n)
@@ -365,7 +463,7 @@ def _part_ps(case, out, V):
                             _judge_ps(out, V, dim, p, sa_, sb_, d[pi, li], cp[pi, li], how)
 
 
-def _judge_ss(out, V, dim, s1, s2, d, c1, c2, ex, how, key):
+def _judge_ss(out, V, dim, s1, s2, d, c1, c2, ex, how, key, idx=0):
     bad = None
     if not _finite(d, c1, c2):
         bad = "non-finite result"
@@ -380,6 +478,7 @@ def _judge_ss(out, V, dim, s1, s2, d, c1, c2, ex, how, key):
     if bad:
         V.add("segment_segment_set: " + bad, call=how, start=list(s1[0]), end=list(s1[1]), start_set=list(s2[0]),
               end_set=list(s2[1]), expected_distance=ex, observed_distance=float(d),
+              from_variant=_CUR["vname"] if idx in _CUR["sub"] else None,
               observed_closest=[np.asarray(c1), np.asarray(c2)])
         out.ev(f"VIOLATION/ss/{dim}d")
         return False
@@ -410,7 +509,7 @@ def _ss_regime(s1, s2, d2):
 
 
 def _part_ss(case, out, V):
-    from porepy.geometry import distances
+    distances = _Wrapped()
 
     dim, n, k = case["dim"], case["n"], case["idx"]
     den = case.get("den", 1)
@@ -441,7 +540,7 @@ def _part_ss(case, out, V):
             ex = _sqrt(exact[j // 2])
             reg = regimes[j // 2]
             key = ("ss", dim, den, min(k, j // 2), max(k, j // 2)) if not reg.endswith("endpoint-endpoint") else None
-            if _judge_ss(out, V, dim, s1, s2, d[j], c1[:, j], c2[:, j], ex, "set", key):
+            if _judge_ss(out, V, dim, s1, s2, d[j], c1[:, j], c2[:, j], ex, "set", key, idx=j):
                 out.ev(f"ss/{dim}d/set/{reg}" + ("" if den == 1 else f"/scaled-1/{den}"), key)
         # single-segment sets (size < 4 reshaping path) for the lexicographic orientation
         if o1 == 0:
@@ -486,7 +585,7 @@ def _poly_kind(kind, poly):
 
 
 def _part_ppoly(case, out, V):
-    from porepy.geometry import distances
+    distances = _Wrapped()
 
     lo, hi = case["idx"]
     ext = case["ext"]
@@ -543,7 +642,7 @@ def _part_ppoly(case, out, V):
 
 
 def _part_spoly(case, out, V):
-    from porepy.geometry import distances
+    distances = _Wrapped()
 
     polys = _polygons()
     kind, poly = polys[case["idx"]]
@@ -619,7 +718,7 @@ def _part_spoly(case, out, V):
 
 
 def _part_sset(case, out, V):
-    from porepy.geometry import distances
+    distances = _Wrapped()
 
     dim = case["dim"]
     base = _segments(dim, 2)
@@ -664,6 +763,7 @@ _PARTS = {"pp": _part_pp, "ps": _part_ps, "ss": _part_ss, "ppoly": _part_ppoly, 
 def run_case(case) -> Outcome:
     out = Outcome()
     V = _V(out)
+    _CUR.update(V=V, k=sum(ord(ch) for ch in repr(sorted(case.items()))), note=None)
     _PARTS[case["part"]](case, out, V)
     V.close()
     return out
@@ -671,6 +771,12 @@ def run_case(case) -> Outcome:
 
 def known_finding(case, viol):
     w = viol.get("what", "")
+    # segment_segment_set compares thresholds that scale like L^2 with quantities that scale
+    # like L^4: at lengths ~1e-4 (the 1/8 sub-lattice scaled by 2^-10) every pair is "parallel".
+    # Matched only for entries that really came from that tiny-scale variant call.
+    if (w.startswith("segment_segment_set:") and isinstance(case, dict) and case.get("part") == "ss"
+            and case.get("den") == 8 and str(viol.get("from_variant", "")).startswith("s2^-10")):
+        return "C30-segment_segment_set-tolerance-not-scale-invariant"
     if w.startswith("segment_set raised"):
         return "C30-segment_set-always-raises"
     return None
